@@ -31,7 +31,7 @@ func init() {
 		Run: run,
 		Floors: func(t string) map[string]int64 {
 			m := map[string]int64{"cfg.overlapping": 200, "cfg.b_inside_a": 100, "cfg.b_inside_hole_of_a": 100, "cfg.a_inside_b": 100, "cfg.disjoint_bbox_overlap": 100,
-				"cfg.bbox_disjoint_both_axes": 100, "cfg.bbox_disjoint_one_axis": 100, "points.judged": 100000, "area.identities_checked": 1000, "area.method_compared": 1000, "result.empty_correct": 500}
+				"cfg.bbox_disjoint_both_axes": 100, "cfg.bbox_disjoint_one_axis": 100, "points.judged": 100000, "area.identities_checked": 1000, "area.method_compared": 1000, "result.empty_correct": 500, "kind.nested": 50}
 			for _, a := range []string{"Polygon", "MultiPolygon", "*Bounds"} {
 				for _, b := range []string{"Polygon", "MultiPolygon", "*Bounds"} {
 					m["pair."+a+"x"+b] = 40
@@ -97,6 +97,21 @@ func GenOperand(r *gen.R, cx, cy, rad float64, kind string, maxVerts int) Operan
 		}
 		ring = rot(ring, cx, cy, r.Range(0, 2*math.Pi))
 		o.Polys = []geom.Polygon{{gen.RespellRandom(r, ring)}}
+	case "nested":
+		// a polygon with holes and an island inside one of its holes (two members)
+		sh := gen.StarPolygon(r, cx, cy, rad, r.IntRange(5, maxVerts), r.IntRange(1, 3), 0)
+		o.Polys = []geom.Polygon{sh.Poly}
+		for _, h := range sh.Holes {
+			if r.Bool() || len(o.Polys) == 1 {
+				nh := 0
+				if r.Chance(0.3) {
+					nh = 1
+				}
+				isl := gen.StarPolygon(r, h.X, h.Y, h.In*r.Range(0.3, 0.8), r.IntRange(3, 10), nh, 0)
+				o.Polys = append(o.Polys, isl.Poly)
+			}
+		}
+		o.Holes = nil
 	case "multi":
 		n := r.IntRange(2, 4)
 		cells := r.Perm(4)
@@ -283,7 +298,7 @@ func generalPosition(a, b *Operand, delta float64) bool {
 	return true
 }
 
-var kinds = []string{"star", "star", "starholes", "starholes", "comb", "stair", "multi", "multi", "box", "box"}
+var kinds = []string{"star", "star", "starholes", "starholes", "comb", "stair", "multi", "nested", "box", "box"}
 var configs = []string{"overlapping", "overlapping", "overlapping", "b_inside_a", "b_inside_hole_of_a", "a_inside_b", "disjoint_bbox_overlap", "bbox_disjoint_both_axes", "bbox_disjoint_one_axis"}
 
 func run(c *core.Ctx, idx int) {
@@ -359,6 +374,8 @@ func run(c *core.Ctx, idx int) {
 	abb, bbb := geom.MultiPolygon(a.Polys).Bounds(), geom.MultiPolygon(b.Polys).Bounds()
 	bbDisjoint := !abb.Overlaps(bbb)
 	c.Count("cfg." + cfg)
+	c.Count("kind." + a.Kind)
+	c.Count("kind." + b.Kind)
 	cfgClass := "bbox-overlap"
 	if bbDisjoint {
 		cfgClass = "bbox-disjoint"
